@@ -454,11 +454,16 @@ class Sh:
             sets = [("NAME", enc_str(name.encode()))]
             lines = ["import sqlite3;", "db = sqlite3(NAME);", 'db.exec("create table t (k integer primary key, %s)");' % cols]
             route = []
+            # bulk insert: one prepared statement, bound and executed once per row (a null must replace the previous row's value)
+            bulk = r.random() < 0.3
+            if bulk: lines.append('db.prepare("insert into t values (?,%s)");' % qm)
             for j, row in enumerate(rows):
                 sets.append(("R%d" % j, "r(" + ",".join([enc_int(j)] + [self.sql_enc(v, k) for v, k in zip(row, kinds)]) + ")"))
-                how = r.choice(["exec", "prepared", "prepared-retained", "query"])
+                how = "prepared-reused" if bulk else r.choice(["exec", "prepared", "prepared-retained", "query"])
                 route.append(how)
-                if how == "exec":
+                if how == "prepared-reused":
+                    lines.append("db.bind(R%d); db.execute();" % j)
+                elif how == "exec":
                     lines.append('db.exec("insert into t values (?,%s)", R%d);' % (qm, j))
                 elif how == "query":
                     lines.append('z%d = db.query("insert into t values (?,%s) returning k", R%d);' % (j, qm, j))
@@ -467,6 +472,7 @@ class Sh:
                 else:
                     # the bound tuple is a copy that the script drops before execute(): the statement must have kept its own data
                     lines.append('db.prepare("insert into t values (?,%s)"); y = R%d; db.bind(y); y = tup(0); yy = "%s" + str(%d); db.execute(); db.finalize();' % (qm, j, "o" * 40, j))
+            if bulk: lines.append("db.finalize();")
             lines.append('q = db.query("select %s from t order by k");' % cols)
             pick = r.randrange(nrows)
             lines.append('p = db.query("select %s from t where k = ?", tup(%d));' % (cols, pick))
